@@ -50,6 +50,7 @@
 #include <unistd.h>
 #include "stir/ProjDataInfoCylindrical.h"
 #include "stir/ProjDataInfoCylindricalNoArcCorr.h"
+#include "stir/ProjDataInfoSubsetByView.h"
 #include <algorithm>
 #include <map>
 #include <set>
@@ -369,6 +370,39 @@ struct Geo
   shared_ptr<ProjDataInfo> pdi;
 };
 
+// ---- domain audit (AUD_C): the data geometry may be a ProjDataInfoSubsetByView of a cylindrical geometry ------------------
+// DataSymmetriesForBins_PET_CartesianGrid.cxx:253-270 has a "special handling of subset case" (the two phi symmetries are
+// switched off, the others stay), and src/test/test_proj_data_info_subsets.cxx drives the ray-tracing matrix with such data:
+// a documented, supported data geometry.  Case key pdiX["subset_views"] = list of ORIGINAL view numbers (absent/empty = none).
+inline const ProjDataInfoCylindrical*
+cyl_of(const ProjDataInfo* p)
+{
+  if (const ProjDataInfoSubsetByView* sub = dynamic_cast<const ProjDataInfoSubsetByView*>(p))
+    return dynamic_cast<const ProjDataInfoCylindrical*>(sub->get_original_proj_data_info_sptr().get());
+  return dynamic_cast<const ProjDataInfoCylindrical*>(p);
+}
+inline bool
+has_subset(const json& pj)
+{
+  return pj.contains("subset_views") && pj["subset_views"].is_array() && !pj["subset_views"].empty();
+}
+//! the subset of a full geometry (the full one when the case has no subset)
+inline shared_ptr<ProjDataInfo>
+subset_of(const shared_ptr<ProjDataInfo>& full, const json& pj)
+{
+  if (!has_subset(pj))
+    return full;
+  std::vector<int> views;
+  const int nv = full->get_num_views();
+  for (const json& v : pj["subset_views"])
+    { // interpreted modulo the number of views, duplicates dropped (any shrunk list stays a valid subset)
+      const int w = int(((v.get<long>() % nv) + nv) % nv);
+      if (std::find(views.begin(), views.end(), w) == views.end())
+        views.push_back(w);
+    }
+  return shared_ptr<ProjDataInfo>(new ProjDataInfoSubsetByView(full, views));
+}
+
 typedef std::tuple<int, int, int, int, int> BinKey;
 inline BinKey
 key(const Bin& b)
@@ -475,6 +509,32 @@ struct Run
   bool had_event = false;        // a clear/set_up/flip happened after at least one get
   long n_gets = 0, n_screened = 0, n_nontrivial = 0;
   std::string trail; // short description of the events so far, for messages
+  // ---- domain audit (AUD_C) -------------------------------------------------------------------------------------------
+  // reuse_row: the output argument of get_proj_matrix_elems_for_one_bin is ONE long-lived row object that still holds the
+  //   previous answer (another bin, possibly another geometry/image), as the projectors use it
+  //   (ForwardProjectorByBinUsingProjMatrixByBin.cxx:116,147: one proj_matrix_row for all bins); never empty at the call.
+  // own_objs: every set_up of the object under test gets its OWN ProjDataInfo clone and its own image object with the
+  //   same grid but arbitrary non-zero voxel values, dropped by the harness right after the call ("determined by the bin, the
+  //   data geometry and the image grid alone"); the references keep using the harness's zero-valued objects.
+  bool reuse_row = false, own_objs = false;
+  ProjMatrixElemsForOneBin held;
+  uint64_t own_counter = 0;
+
+  //! m->set_up for (geometry gg, image ii), see own_objs
+  void set_up_m(int gg, int ii)
+  {
+    if (!own_objs)
+      {
+        m->set_up(geo[gg].pdi, img[ii]);
+        return;
+      }
+    shared_ptr<ProjDataInfo> p(geo[gg].pdi->clone());
+    shared_ptr<VoxelsOnCartesianGrid<float>> im(img[ii]->clone());
+    vg::fill_random(*im, 0x9e3779b97f4a7c15ULL + (++own_counter), -3., 3.);
+    m->set_up(p, im);
+    im->fill(-1.F); // (the caller may do what it likes with its image after set_up: ProjMatrixByBin::set_up clones it)
+    stats().count("set_up calls with own clones of the data geometry and a non-zero image of the same grid");
+  }
 
   ProjMatrixByBinUsingRayTracing& rt() const { return dynamic_cast<ProjMatrixByBinUsingRayTracing&>(*m); }
 
@@ -831,7 +891,7 @@ struct Run
   //! approximate.  An image laid out for geometry A is combined with geometry B only if the relation holds to float accuracy.
   bool commensurate(int gg, int ii) const
   {
-    const ProjDataInfoCylindrical* cyl_pdi = dynamic_cast<const ProjDataInfoCylindrical*>(geo[gg].pdi.get());
+    const ProjDataInfoCylindrical* cyl_pdi = cyl_of(geo[gg].pdi.get());
     if (!cyl_pdi)
       return true;
     const double vz = img[ii]->get_voxel_size().z();
@@ -847,7 +907,7 @@ struct Run
   //! largest relative deviation of (axial sampling / z voxel size) and (ring spacing / z voxel size) from an integer, current geometry
   double z_mismatch() const
   {
-    const ProjDataInfoCylindrical* cyl_pdi = dynamic_cast<const ProjDataInfoCylindrical*>(geo[g].pdi.get());
+    const ProjDataInfoCylindrical* cyl_pdi = cyl_of(geo[g].pdi.get());
     if (!cyl_pdi)
       return 0;
     const double vz = img[i]->get_voxel_size().z();
@@ -911,7 +971,7 @@ struct Run
     }
     g = gg;
     i = ii;
-    m->set_up(geo[g].pdi, img[i]); // must not throw: a fresh matrix with the same settings accepted it
+    set_up_m(g, i); // must not throw: a fresh matrix with the same settings accepted it
     event(cat(what, "(g", g, ",i", i, ")"));
     return Result::pass();
   }
@@ -1068,7 +1128,14 @@ Run::get(const Bin& bin, const char* how)
       basics_via_related.insert(key(basic));
     since_event.insert(key(bin));
   }
-  ProjMatrixElemsForOneBin got, want;
+  ProjMatrixElemsForOneBin fresh_row, want;
+  ProjMatrixElemsForOneBin& got = reuse_row ? held : fresh_row;
+  if (reuse_row)
+    {
+      if (held.size() == 0) // never hand over an empty row: an element far outside any image with a negative value
+        held.push_back(ProjMatrixElemsForOneBin::value_type(Coordinate3D<int>(1000, -1000, 1000), -5.F));
+      stats().count("gets into a reused row object (holds the previous answer)");
+    }
   if (kind == K_SPECT && !no_exclude("S1"))
     { // FINDING C03-S1 (see REPORT): the FIRST request for a bin of a view that is not in the cache returns an EMPTY row
       // (ProjMatrixByBinSPECTUB::calculate_proj_matrix_elems_for_one_bin computes the view into the cache and ends with
@@ -1305,7 +1372,7 @@ Run::run_op(const json& op, int)
         else
           reconfigure_object();
         interp_before_setup(g, i);
-        m->set_up(geo[g].pdi, img[i]);
+        set_up_m(g, i);
         event(cat("sym", k, "=", sym[k], kind == K_RT && !via_parse ? "" : "(parse)", "+set_up"));
         return Result::pass();
       }
@@ -1335,7 +1402,7 @@ Run::run_op(const json& op, int)
         else if (!no_setup)
           {
             interp_before_setup(g, i);
-            m->set_up(geo[g].pdi, img[i]); // (ray tracing: documented to be skipped when nothing relevant changed)
+            set_up_m(g, i); // (ray tracing: documented to be skipped when nothing relevant changed)
           }
         else
           stats().count(cat("cache mode switches without set_up [", kind_name(kind), "]"));
@@ -1388,7 +1455,7 @@ Run::run_op(const json& op, int)
         else
           reconfigure_object();
         interp_before_setup(g, i);
-        m->set_up(geo[g].pdi, img[i]);
+        set_up_m(g, i);
         event(kind == K_INTERP ? cat("pli=", pli, ",jac=", jac, "(parse)+set_up")
                                : (kind == K_SPECT ? cat("psf=", psf, ",mask=", mask, "(parse)+set_up") : cat("lors=", lors, ",cylFOV=", cyl, "+set_up")));
         return Result::pass();
@@ -1427,6 +1494,8 @@ check(const json& c)
   Run R;
   R.kind = kind_of(c);
   R.via_parse = c.value("via_parse", false);
+  R.reuse_row = c.value("reuse_row", false);
+  R.own_objs = c.value("own_objs", false);
   try
     {
       R.geo[0].sc = vg::make_scanner(c["scA"]);
@@ -1434,10 +1503,12 @@ check(const json& c)
       for (int k = 0; k < 2; ++k)
         if (R.geo[k].sc->check_consistency() != Succeeded::yes)
           return Result::reject("scanner inconsistent");
-      R.geo[0].pdi = vg::make_pdi(R.geo[0].sc, c["pdiA"]);
-      R.geo[1].pdi = vg::make_pdi(R.geo[1].sc, c["pdiB"]);
-      R.img[0] = vg::make_image(c["imgA"], *R.geo[0].pdi);
-      R.img[1] = vg::make_image(c["imgB"], *R.geo[c.value("imgB_ref", 1) ? 1 : 0].pdi);
+      // (images are laid out for the FULL geometries: a subset by view has the axial and tangential sampling of its original)
+      shared_ptr<ProjDataInfo> full[2] = { vg::make_pdi(R.geo[0].sc, c["pdiA"]), vg::make_pdi(R.geo[1].sc, c["pdiB"]) };
+      R.img[0] = vg::make_image(c["imgA"], *full[0]);
+      R.img[1] = vg::make_image(c["imgB"], *full[c.value("imgB_ref", 1) ? 1 : 0]);
+      R.geo[0].pdi = subset_of(full[0], c["pdiA"]);
+      R.geo[1].pdi = subset_of(full[1], c["pdiB"]);
     }
   catch (const std::exception& e)
     {
@@ -1541,7 +1612,7 @@ check(const json& c)
   R.m = R.make_object(true, R.cache);
   R.interp_pli_member = R.pli;
   R.interp_before_setup(0, 0);
-  R.m->set_up(R.geo[0].pdi, R.img[0]);
+  R.set_up_m(0, 0);
 
   // class histogram
   {
@@ -1550,6 +1621,20 @@ check(const json& c)
     stats().cls(p.is_tof_data() ? "geometry A: TOF" : "geometry A: non-TOF");
     if (p.is_tof_data())
       stats().cls(cat("geometry A: TOF [", kind_name(R.kind), "]"));
+    for (int k = 0; k < 2; ++k)
+      if (R.geo[k].pdi->get_min_segment_num() != -R.geo[k].pdi->get_max_segment_num())
+        stats().cls(cat("geometry ", k ? "B" : "A", ": segment range not symmetric (", -R.geo[k].pdi->get_min_segment_num() > R.geo[k].pdi->get_max_segment_num() ? "negative side longer)" : "positive side longer)"));
+    stats().cls(R.reuse_row ? "output row: one reused object (holds the previous answer)" : "output row: fresh object per request");
+    stats().cls(R.own_objs ? "set_up arguments: own clones, non-zero image values" : "set_up arguments: the harness's shared objects");
+    for (int k = 0; k < 2; ++k)
+      if (const ProjDataInfoSubsetByView* sub = dynamic_cast<const ProjDataInfoSubsetByView*>(R.geo[k].pdi.get()))
+        {
+          const int nsub = sub->get_num_views(), nfull = sub->get_original_proj_data_info_sptr()->get_num_views();
+          stats().cls(cat("geometry ", k ? "B" : "A", ": subset by view, ", nsub == 1 ? "a single view" : (nsub == nfull ? "all views" : "several views")));
+          const std::vector<int> ov = sub->get_original_view_nums();
+          if (!std::is_sorted(ov.begin(), ov.end()))
+            stats().cls(cat("geometry ", k ? "B" : "A", ": subset by view, views not in increasing order"));
+        }
     if (dynamic_cast<const ProjDataInfoCylindricalArcCorr*>(&p))
       stats().cls("geometry A: arc-corrected");
     if (c["pdiA"]["span"].get<int>() > 1)
@@ -1638,9 +1723,42 @@ in_known_class_file_tof(const json& c)
   const int poss = c["scA"].value("tof_poss", 0);
   return mash > 0 && poss > 0 && poss / mash > 1;
 }
+// (c) FINDING C03-A1 (domain audit AUD_C, see REPORT): DataSymmetriesForBins_PET_CartesianGrid keeps per-segment tables (deltas,
+//     num_planes_per_axial_pos, axial_pos_to_z_offset) for the segments of the DATA (min_segment_num..max_segment_num), but
+//     find_sym_op_bin0 / find_sym_op_general_bin index them with abs(segment_num) ("find_transform_z(abs(segment_num), ...)",
+//     DataSymmetriesForBins_PET_CartesianGrid.inl:127,233, before looking at any switch), and with do_symmetry_swap_segment the row
+//     of segment -n is computed for the basic bin of segment +n (ProjDataInfoCylindrical::get_average_ring_difference(+n)).  For data
+//     whose segment range was reduced to min_segment_num < -max_segment_num (ProjDataInfo::reduce_segment_range accepts any
+//     sub-range; the constructor of the symmetries loops over min(max_segment_num, -min_segment_num), i.e. expects such data)
+//     segment +n does not exist: every request for a bin of such a segment reads the tables out of range - an assertion in this
+//     build whatever the switches; in a Release build an out-of-bounds read whose value is unused without swap_segment and a row
+//     for a garbage tan(theta) with it (the default).  Class: a data geometry with a negative segment without its positive partner.
+bool
+segment_range_lacks_positive_partner(const json& scj, const json& pj)
+{
+  if (!pj["trim"].contains("min_seg"))
+    return false;
+  try
+    {
+      shared_ptr<Scanner> sc = vg::make_scanner(scj);
+      shared_ptr<ProjDataInfo> p = vg::make_pdi(sc, pj);
+      return -p->get_min_segment_num() > p->get_max_segment_num();
+    }
+  catch (const std::exception&)
+    {
+      return false;
+    }
+}
+bool
+in_known_class_asym_segments(const json& c)
+{
+  return segment_range_lacks_positive_partner(c["scA"], c["pdiA"]) || segment_range_lacks_positive_partner(c["scB"], c["pdiB"]);
+}
 std::string
 known_signature(const json& c)
 {
+  if (!no_exclude("A1") && in_known_class_asym_segments(c))
+    return "C03:segment-range:negative-segment-without-positive-partner";
   if (!no_exclude("C04") && in_known_class_interp_nonsquare(c))
     return "C04:interpolation-matrix:sym90:image-nx!=ny";
   if (!no_exclude("F6") && in_known_class_file_tof(c))
@@ -1773,6 +1891,72 @@ gen(Src& s, int size)
   json c = gen_config(s, size, kind);
   if (kind == K_RT && s.chance(1, 5))
     c["via_parse"] = true;
+  // ---- domain audit (AUD_C), see struct Run and subset_of() ---------------------------------------------------------------
+  c["reuse_row"] = s.coin();
+  c["own_objs"] = s.chance(1, 3);
+  // segment ranges that are not symmetric (ProjDataInfo::reduce_segment_range(min, max) accepts any sub-range, and the constructor of
+  // DataSymmetriesForBins_PET_CartesianGrid checks the +-segment pairs up to min(max_segment_num, -min_segment_num) only)
+  for (int k = 0; k < 2; ++k)
+    if (s.chance(1, 6))
+      {
+        const char* pk = k ? "pdiB" : "pdiA";
+        const char* sk = k ? "scB" : "scA";
+        json trim = c[pk]["trim"];
+        if (!trim.contains("tang_cut"))
+          trim["tang_cut"] = 0;
+        long lo = s.range(0, 3), hi = s.range(0, 3);
+        if (lo == hi)
+          hi = lo == 0 ? 1 : lo - 1;
+        trim["max_seg"] = int(hi);
+        trim["min_seg"] = -int(lo);
+        c[pk]["trim"] = trim;
+        if (!no_exclude("A1") && segment_range_lacks_positive_partner(c[sk], c[pk]))
+          { // excluded by construction (finding C03-A1, see known_signature): the mirrored range (positive partner present)
+            trim["max_seg"] = int(lo);
+            trim["min_seg"] = -int(hi);
+            c[pk]["trim"] = trim;
+            stats().excluded_known++;
+            stats().count("excluded:C03:segment-range:negative-segment-without-positive-partner (generator: segment range mirrored)");
+          }
+      }
+  if (kind == K_RT)
+    { // subsets by view (ray tracing only: ProjMatrixByBinUsingInterpolation::set_up error()s "needs ProjDataInfoCylindrical for jacobian")
+      for (const char* pk : { "pdiA", "pdiB" })
+        if (s.chance(1, 5))
+          {
+            const int nv = c[pk]["views"].get<int>();
+            json v = json::array();
+            const long form = s.range(0, 5);
+            if (form == 0) // a single view (first / last / any)
+              v.push_back(s.pick(std::vector<long>{ 0, long(nv - 1), s.range(0, nv - 1) }));
+            else if (form == 1) // all views
+              for (int k = 0; k < nv; ++k)
+                v.push_back(k);
+            else if (form <= 3)
+              { // the regular subset k of n, as ProjData::get_subset users build it
+                const int n = int(s.range(1, std::max(1, nv)));
+                const int k0 = int(s.range(0, n - 1));
+                for (int k = k0; k < nv; k += n)
+                  v.push_back(k);
+              }
+            else
+              { // an arbitrary subset in an arbitrary order (ProjDataInfoSubsetByView.cxx only demands range and uniqueness)
+                std::vector<long> all;
+                for (int k = 0; k < nv; ++k)
+                  all.push_back(k);
+                const int n = int(s.range(1, nv));
+                for (int k = 0; k < n; ++k)
+                  {
+                    const std::size_t at = std::size_t(s.range(0, long(all.size()) - 1));
+                    v.push_back(all[at]);
+                    all.erase(all.begin() + long(at));
+                  }
+                if (form == 4)
+                  std::sort(v.begin(), v.end());
+              }
+            c[pk]["subset_views"] = v;
+          }
+    }
   shared_ptr<Scanner> scA = vg::make_scanner(c["scA"]);
   // (only used to bias the bin choice towards the special views / central tangential positions of geometry A)
   const int nv = c["pdiA"]["views"].get<int>();
@@ -2074,6 +2258,7 @@ enumerate(uint64_t idx, int tier, json& c)
           ops.push_back(json::array({ int(OP_SWEEP), long(idx * 40503ULL % 1000003ULL) + 1 }));
         }
       c["ops"] = ops;
+      c["reuse_row"] = idx % 2 == 1; // (AUD_C) every other sweep hands over one long-lived row object
       return true;
     }
   const std::size_t gi = std::size_t(idx / per_geo);
@@ -2102,6 +2287,7 @@ enumerate(uint64_t idx, int tier, json& c)
       ops.push_back(json::array({ int(OP_SWEEP), long(idx * 40503ULL % 1000003ULL) + 1 }));
     }
   c["ops"] = ops;
+  c["reuse_row"] = idx % 2 == 1; // (AUD_C)
   return true;
 }
 
@@ -2157,6 +2343,7 @@ fixed_cases(int tier)
                 ops.push_back(json::array({ int(OP_ORBIT), r.range(0, 40), r.range(0, 63), 0, r.range(0, 63), r.range(0, 20), 1 - rev }));
               ops.push_back(json::array({ int(OP_REGET), 3, 100 }));
               c["ops"] = ops;
+              c["reuse_row"] = symz == 1; // (AUD_C)
               out.push_back(c);
             }
     }
